@@ -78,7 +78,7 @@ class Wrappers:
             return out
         f = "vec_znx_rotate" if kind == "rot" else "vec_znx_automorphism"
         for mk in self.mods:
-            out += [(f, mk, False), (f, mk, True), (f, mk, "one")]
+            out += [(f, mk, False), (f, mk, True), (f, mk, "one"), (f, mk, "compact")]
         g = "vec_znx_big_rotate" if kind == "rot" else "vec_znx_big_automorphism"
         for mk in ("fft64", "fft64-generic"):
             if mk in self.mods:
@@ -95,6 +95,14 @@ class Wrappers:
             a.i64[:] = x
             L.call(f, mod, p, a, 1, n, a, 1, 2 * n)
             return a.i64.copy() if a.canaries_ok() else None
+        if inplace == "compact":    # two limbs compacted in place: res == a, a_sl = 2n + 1, res_sl = n (limb 0 is its own source, limb 1 of res
+            asl = 2 * n + 1         # overlaps no source limb partly and nothing that is still to be read)
+            a = Buf(8 * (asl + n), fill=0x33)
+            a.i64[0:n] = x
+            a.i64[asl:asl + n] = 2 * x
+            L.call(f, mod, p, a, 2, n, a, 2, asl)
+            ok = a.canaries_ok() and np.array_equal(a.i64[n:2 * n], 2 * a.i64[0:n]) and bool((a.u8[8 * 2 * n:8 * asl] == 0x33).all())
+            return a.i64[0:n].copy() if ok else None
         a = Buf(8 * 2 * sl, fill=0x33)
         av = a.i64
         av[0:n] = x
@@ -234,7 +242,7 @@ def drive_b(rec, n, full, quick):
                     continue
                 got = W.run(f, mk, ip, p, probe)
                 groups.setdefault(None if got is None else got.tobytes(), []).append(
-                    "%s[%s%s]" % (f, mk, (",inplace, one limb, res_sl != a_sl" if ip == "one" else ",inplace") if ip else ""))
+                    "%s[%s%s]" % (f, mk, (",inplace, one limb, res_sl != a_sl" if ip == "one" else ",compacted in place" if ip == "compact" else ",inplace") if ip else ""))
                 rec.case((f, mk, ip, n, p % (2 * n) if full else p))
             for key, names in groups.items():
                 if key is None:
